@@ -1,4 +1,4 @@
-(* C10 half (b): runs the extracted mirror of YaccParser on `<kind> <hexsrc> [fc] [fa]`
+(* C10 half (b): runs the extracted mirror of YaccParser on `<kind> <hexsrc> [fc] [fa] [fp]`
    and prints the transcript format of harness/src/bin/c10yp.rs *)
 let unhex (s : string) : int list =
   (* hex -> bytes -> code points (input is valid UTF-8) *)
@@ -140,9 +140,10 @@ let () =
     | k :: h :: rest ->
       let kind = match k with "G" -> KGrmtools | "E" -> KEco | _ -> KOriginal in
       let src = if h = "-" then [] else List.map n_of_int (unhex h) in
-      (* optional flags: fc = repaired block-comment scan, fa = repaired action span *)
-      let fixed = List.mem "fc" rest and fixed_aspan = List.mem "fa" rest in
-      (match run_case fixed fixed_aspan kind src with
+      (* optional flags: fc = repaired block-comment scan, fa = repaired action span,
+         fp = repaired production span (/repo 69c4b9b: get_or_insert at the action's brace) *)
+      let fixed = List.mem "fc" rest and fixed_aspan = List.mem "fa" rest and fixed_pspan = List.mem "fp" rest in
+      (match run_case fixed fixed_aspan fixed_pspan kind src with
        | Panic -> "PANIC"
        | OutOfFuel -> "OUTOFFUEL"
        | Done THeader -> "HEADER"
